@@ -1200,6 +1200,74 @@ def c17(res, wd):
                         "repetitions because the driver decides packet fates in (destination, send order)"]
 
 
+# ---------------------------------------------------------------------------------------------
+# C15: time-sync estimates and wait advice
+# ---------------------------------------------------------------------------------------------
+
+def _lead_plan(k, lat, fps, seed):
+    """Two peers, symmetric constant latency, equal tick rates; after a warm-up one peer skips |k|
+    ticks, so the other runs |k| frames ahead from then on."""
+    tick = 1000 // fps
+    behind = 1 if k > 0 else 0                # peer 0 leads for k > 0
+    cfg = {"players": 2, "window": 12, "sparse": False, "predictor": "repeat", "desync": 0, "fps": fps,
+           "timeout": 2000, "notify": 500, "max_behind": 10, "catchup": 1, "max_delay": 8,
+           "timesync": {"on": True, "warmup": 1200 + abs(k) * tick + 31 * tick + 2 * lat, "lat": lat, "tick": tick},
+           "peers": [{"kind": "p2p", "locals": [0], "delay": 0, "host": 0},
+                     {"kind": "p2p", "locals": [1], "delay": 0, "host": 0}]}
+    return {"seed": seed, "frames": 10 ** 9, "cfg": cfg, "tick_ms": [tick, tick], "jitter": 0,
+            "lat_lo": lat, "lat_hi": lat, "loss": 0.0, "dup": 0.0, "alphabet": 4, "change": 0.3,
+            "holds": [{"p": behind, "at_frame": 20, "ticks": abs(k)}] if k != 0 else [],
+            "p_stats": 0.3, "drain": True, "max_ms": 1200 + 4500 + abs(k) * tick, "_k": k}
+
+
+def c15(res, wd):
+    core.build()
+    # (1) the window arithmetic: records of the real TimeSync validated against TimeSync.tla
+    import re
+    rec = os.path.join(wd, "timesync.ndjson")
+    nrec = sizes(res.tier, 1500, 20000)
+    rc, o = core.sh([os.path.join(core.BIN, "timesync"), rec, str(res.seed), str(nrec)], timeout=600)
+    if rc != 0:
+        raise core.ToolError("timesync probe failed: %s" % o[-800:])
+    rc, out = core.tlc(os.path.join(core.SPEC, "Trace_TimeSync.tla"), os.path.join(core.SPEC, "Trace_TimeSync.cfg"),
+                       os.path.join(wd, "md_ts"), env={"TRACE": rec}, timeout=1500, xmx="4g")
+    m = re.search(r'<<"TS-RESULT", "(.*)">>', out)
+    if not m:
+        raise core.ToolError("Trace_TimeSync produced no result: %s" % out[-1500:])
+    tsr = json.loads(m.group(1).encode().decode("unicode_escape"))
+    res.evaluations += tsr["records"]
+    res.nontrivial += tsr["records"]
+    res.extra["window_arithmetic"] = {"records": tsr["records"], "bad": tsr["bad"], "steady_lead_theorems": tsr["theorems"]}
+    if tsr["bad"] or not tsr["theorems"]:
+        res.violations.append({"prop": "C15", "code": "window-average-differs-from-specification",
+                               "detail": tsr["first"], "family": "timesync-window", "cls": "window", "replay": rec})
+    # (2) closed loop on real sessions: every lead, latency, fps
+    ps = []
+    leads = list(range(-7, 8))
+    lats = [0, 8, 16, 33, 50, 100]
+    grid = [(k, l, f) for k in leads for l in lats for f in (60, 30)]
+    rng = random.Random(res.seed * 1000 + 150)
+    if res.tier == "quick":
+        grid = rng.sample(grid, 24) + [(0, 16, 60), (7, 0, 60), (-7, 8, 60), (3, 50, 30)]
+    for (k, l, f) in grid:
+        if abs(k) + (l * f) // 1000 + 1 > 10:       # the leader must stay inside its prediction window
+            continue
+        ps.append(_lead_plan(k, l, f, rng.randrange(1 << 30)))
+    engines.obs_runs(res, "C15", ps, {"C15"}, wd, "c15", nontrivial=lambda st, pl: st["ticks"] >= 200,
+                     cls_of=lambda p: "lead%d" % p["_k"])
+    # (3) the recommendation gate is judged on every drained WaitRecommendation of these and all runs
+    res.rule = ("(1) TimeSync.tla: 30-slot windows, exact rational average; records of the real window under random and "
+                "adversarial sequences validated by TLC (f32 boundary behaviour modelled as a relation); (2) real two-peer "
+                "sessions under the virtual clock for every lead -7..7 x one-way latency {0,8,16,33,50,100} ms x fps "
+                "{30,60} that keeps the leader inside its window; after the warm-up Monitor.tla demands on every call "
+                "|frames_ahead - real lead| <= 2 and |sum of both peers' frames_ahead| <= 2, on every network_stats call "
+                "ping in [2L, 2L + 2 ticks], local figure = the peer's remote figure (+-2), errors before one second; "
+                "WaitRecommendation only with skip = frames_ahead >= 3 and >= 60 frames apart.  'About' is +-2 frames "
+                "here: +-1 estimation, +-1 because the two sessions are sampled at different instants.")
+    res.assumptions += ["equal input delays (a delay difference d biases frames_ahead by d/2 by construction)",
+                        "float rounding of the window average only matters at exact multiples of 60 (modelled)"]
+
+
 CHECKS = {
     "C01": c01,
     "C02": c02,
@@ -1215,6 +1283,7 @@ CHECKS = {
     "C12": c12,
     "C13": c13,
     "C14": c14,
+    "C15": c15,
     "C16": c16,
     "C17": c17,
     "C18": c18,
